@@ -195,6 +195,20 @@ def _run_harness(hn, tier, seed, findings):
         out["undecided"].append({"harness": hn.name, "reason": f"harness not applicable to this code: {type(e).__name__}: {str(e)[:120]} ({where})"})
     except Exception as e:
         out["error"] = traceback.format_exc()
+    if any("harness" in u for u in out["undecided"]) and hn.replay is not None \
+            and not any(f.get("property") == hn.pid and str(f.get("obligation", "")).startswith(hn.name + ":") and not f.get("fixed") for f in findings):
+        # the harness could not be applied to this code (it left the modelled subset, or no longer has the structure the contract refers to): nothing is
+        # decided deductively, but the harness' native replay of its clause still runs on the real code; only a failure observed there is reported
+        try:
+            rr = hn.replay({}, "(harness not applicable)")
+        except Exception as e:
+            tb = traceback.extract_tb(e.__traceback__)
+            src = os.path.realpath(os.path.join(REPO, "src"))
+            rr = {"failed": True, "raised_by_the_library": repr(e)[:300]} if any(os.path.realpath(fr.filename).startswith(src) and "/tests/" not in fr.filename for fr in tb) else {"failed": False}
+        if rr.get("failed"):
+            out["violations"].append({"property": hn.pid, "obligation": f"{hn.name}:native_replay_of_the_clause", "inputs": {}, "solver_model": "",
+                                      "function": "", "lineno": None, "kind": "post", "replayed": True, "observed": rr,
+                                      "detail": "the harness does not apply to this code (undecided); its native replay of the clause fails on the real code"})
     obs = list(h.extra_obligations)
     for s in h.sessions:
         obs.extend(s.obligations)
